@@ -8,6 +8,7 @@ package py
 
 import (
 	"fmt"
+	"reflect"
 )
 
 // Gets the attribute attr from object or returns nil
@@ -23,6 +24,30 @@ func ObjectRepr(o Object) Object {
 }
 
 // Return whether the object is True or not
+// ObjectIs reports whether a and b are the same object (python's "is").
+//
+// Dicts and tuples are go maps and slices, which the go == operator
+// cannot compare (it panics): they are the same object if they share
+// their storage.
+func ObjectIs(a, b Object) bool {
+	switch x := a.(type) {
+	case StringDict:
+		y, ok := b.(StringDict)
+		return ok && reflect.ValueOf(x).Pointer() == reflect.ValueOf(y).Pointer()
+	case Tuple:
+		y, ok := b.(Tuple)
+		return ok && len(x) == len(y) && (len(x) == 0 || &x[0] == &y[0])
+	case Bytes:
+		y, ok := b.(Bytes)
+		return ok && len(x) == len(y) && (len(x) == 0 || &x[0] == &y[0])
+	}
+	switch b.(type) {
+	case StringDict, Tuple, Bytes:
+		return false
+	}
+	return a == b
+}
+
 func ObjectIsTrue(o Object) (cmp bool, err error) {
 	switch o {
 	case True:
